@@ -18,24 +18,49 @@ From Coq Require Import Permutation.
 Open Scope N_scope.
 
 (* For every history (any keys, timestamps in [0, 2^63), any repetition of identical registrations, SetTimer calls
-   between two yields, Restore at any point), every cache size [cache] >= 0, every key-group function and range, every
-   list of source runners: each advance yields exactly the due pending timers (a permutation of the specification's due
-   list: none missing, none extra), in non-decreasing timestamp order, each once; at the end (hence after every prefix,
-   in particular across every Restore) the DB holds exactly the encodings of the specification's pending timers; and in
-   every reachable state every key group's cache is a prefix of the group's sorted DB content - all of it when
-   allDataInCache is set - with byteSize equal to the number of cached bytes. *)
+   between two yields, consumers that stop after k items, Restore at any point), every cache size [cache] >= 0, every
+   key-group function and range, every list of source runners - with [outs] the outputs of the advances:
+   * a drained advance ([Advance], [AdvanceSet]; expectation [(due, None)]) yields exactly the due pending timers (a
+     permutation of the specification's due list: none missing, none extra), in non-decreasing timestamp order, each once;
+   * an advance whose consumer stops in the body of the k-th item ([AdvancePartial]; expectation [(due, Some k)]) hands out
+     [partial_ok k due out]: distinct due timers, in timestamp order, min(k, number due) of them, none later than a due timer
+     it did not hand out; the specification then removes exactly the handed-out timers from the pending list
+     ([sp_advance_partial]): the CURRENT code deletes a timer from the store before it yields it, so a stopped consumer
+     loses nothing (what was not handed out stays pending) and duplicates nothing (what was handed out is never handed out
+     again, neither at a later watermark nor after a restore);
+   * at the end (hence after every prefix, in particular across every Restore) the DB holds exactly the encodings of the
+     specification's pending timers;
+   * in every reachable state every key group's cache is a prefix of the group's sorted DB content - all of it when
+     allDataInCache is set - with byteSize equal to the number of cached bytes. *)
 Theorem timers_exactly_once_in_order :
   forall (kgf : bytes -> N) (start size cache : N) (srids : list N) (ops : list op),
     start + size <= 65536 ->
     Forall (op_okc kgf start size) ops ->
     let c := {| cf_q := quirks_now; cf_kgf := kgf; cf_start := start; cf_size := size; cf_cache := cache; cf_srids := srids |} in
-    Forall2 (fun out due => Permutation out due /\ time_sorted out = true /\ NoDup out)
-            (fst (run c ops (sys_new c []))) (fst (spec_run srids ops (spec_new srids []))) /\
-    Permutation (snd (snd (run c ops (sys_new c []))))
-                (map (enc kgf) (sp_pending (snd (spec_run srids ops (spec_new srids []))))) /\
+    let outs := fst (run c ops (sys_new c [])) in
+    let sp := spec_run srids ops outs (spec_new srids []) in
+    Forall2 (fun out e =>
+               match snd e with
+               | None => Permutation out (fst e) /\ time_sorted out = true /\ NoDup out
+               | Some k => partial_ok k (fst e) out
+               end) outs (fst sp) /\
+    Permutation (snd (snd (run c ops (sys_new c [])))) (map (enc kgf) (sp_pending (snd sp))) /\
     cache_inv (snd (run c ops (sys_new c []))).
 Proof. intros kgf start size cache srids ops H Hok. exact (refinement kgf start size cache srids H ops Hok). Qed.
 Print Assumptions timers_exactly_once_in_order.
+
+(* a consumer that stops part-way: what it was handed is not pending any more (unless the consumer itself registered it
+   again, later than the watermark), everything else that was pending still is, nothing else appears *)
+Theorem stopped_consumer_loses_and_duplicates_nothing :
+  forall sender wm during out s, NoDup (sp_pending s) ->
+    let s' := snd (sp_advance_partial sender wm during out s) in
+    sp_wm s' = ups_min (ups_set sender wm (sp_ups s)) /\
+    NoDup (sp_pending s') /\
+    (forall x, In x out -> In x (sp_pending s') -> exists a k t, In (a, k, t) during /\ (sp_wm s' < t)%Z /\ x = (k, t)) /\
+    (forall x, In x (sp_pending s) -> ~ In x out -> In x (sp_pending s')) /\
+    (forall x, In x (sp_pending s') -> In x (sp_pending s) \/ exists a k t, In (a, k, t) during /\ x = (k, t)).
+Proof. exact sp_advance_partial_facts. Qed.
+Print Assumptions stopped_consumer_loses_and_duplicates_nothing.
 
 (* What the specification says, in the words of the property.  An advance fires exactly the pending timers with
    t <= the new composite watermark, each once; afterwards no pending timer is at or before the watermark, none of the
@@ -67,7 +92,7 @@ Print Assumptions set_timer_guard_and_idempotence.
 
 (* checkpoint + restore keeps exactly the pending timers *)
 Theorem restore_keeps_pending :
-  forall srids s, sp_pending (snd (sp_step srids Restore s)) = sp_pending s.
+  forall srids out s, sp_pending (snd (sp_step srids Restore out s)) = sp_pending s.
 Proof. exact sp_restore_keeps. Qed.
 Print Assumptions restore_keeps_pending.
 
@@ -75,7 +100,7 @@ Print Assumptions restore_keeps_pending.
    corpus/timers/pre_epoch.json, known finding) fires them late and out of order *)
 Theorem pre_epoch_order_refuted :
   exists ops, forallb op_ok ops = false /\
-    fst (run (one_group quirks_now 1000) ops (sys_new (one_group quirks_now 1000) [])) <> fst (spec_run [0] ops (spec_new [0] [])) /\
+    fst (run (one_group quirks_now 1000) ops (sys_new (one_group quirks_now 1000) [])) <> spec_out ops /\
     fst (run (one_group quirks_now 1000) ops (sys_new (one_group quirks_now 1000) [])) = [[]; []; [(k1, 5%Z); (k1, (-5)%Z)]].
 Proof. exists h_pre_epoch. vm_compute. repeat split; discriminate. Qed.
 Print Assumptions pre_epoch_order_refuted.
@@ -84,7 +109,7 @@ Print Assumptions pre_epoch_order_refuted.
 Theorem load_marks_all_cached_refutes_C10 :
   exists ops, forallb op_ok ops = true /\
     fst (run (one_group quirks_D12 40) ops (sys_new (one_group quirks_D12 40) [])) = [map (fun i => (k1, Z.of_nat i)) (seq 1 7); []] /\
-    fst (spec_run [0] ops (spec_new [0] [])) = [rev (map (fun i => (k1, Z.of_nat i)) (seq 1 8)); []].
+    spec_out ops = [rev (map (fun i => (k1, Z.of_nat i)) (seq 1 8)); []].
 Proof. exists h_D12. vm_compute. repeat split. Qed.
 Print Assumptions load_marks_all_cached_refutes_C10.
 
@@ -92,7 +117,7 @@ Theorem push_beyond_cache_max_refutes_C10 :
   exists ops, forallb op_ok ops = true /\
     fst (run (one_group quirks_D13 40) ops (sys_new (one_group quirks_D13 40) [])) =
       [[(k1, 10%Z)]; [(k1, 20%Z); (k1, 30%Z)]; [(k1, 60%Z); (k1, 40%Z); (k1, 50%Z)]] /\
-    fst (spec_run [0] ops (spec_new [0] [])) = [[(k1, 10%Z)]; [(k1, 40%Z); (k1, 30%Z); (k1, 20%Z)]; [(k1, 60%Z); (k1, 50%Z)]].
+    spec_out ops = [[(k1, 10%Z)]; [(k1, 40%Z); (k1, 30%Z); (k1, 20%Z)]; [(k1, 60%Z); (k1, 50%Z)]].
 Proof. exists h_D13. vm_compute. repeat split. Qed.
 Print Assumptions push_beyond_cache_max_refutes_C10.
 
@@ -101,8 +126,11 @@ Print Assumptions push_beyond_cache_max_refutes_C10.
 Example guard_satisfiable :
   Forall (op_okc (fun _ => 0) 0 1) (h_D13 ++ [Restore; SetTimer k1 70%Z; SetTimer k1 70%Z; Advance 0 maxt]) /\
   fst (run (one_group quirks_now 40) (h_D13 ++ [Restore; SetTimer k1 70%Z; SetTimer k1 70%Z; Advance 0 maxt]) (sys_new (one_group quirks_now 40) []))
-    = [[(k1, 10%Z)]; [(k1, 20%Z); (k1, 30%Z); (k1, 40%Z)]; [(k1, 50%Z); (k1, 60%Z)]; [(k1, 70%Z)]].
+    = [[(k1, 10%Z)]; [(k1, 20%Z); (k1, 30%Z); (k1, 40%Z)]; [(k1, 50%Z); (k1, 60%Z)]; [(k1, 70%Z)]] /\
+  Forall (op_okc (fun _ => 0) 0 1) h_partial /\
+  fst (run (one_group quirks_now 40) h_partial (sys_new (one_group quirks_now 40) []))
+    = [[(k1, 10%Z); (k1, 20%Z)]; [(k1, 30%Z); (k1, 40%Z)]; []].
 Proof.
-  split; [|vm_compute; reflexivity].
+  split; [|split; [vm_compute; reflexivity|split; [|vm_compute; reflexivity]]];
   repeat constructor; cbn; unfold Proofs.C10_Codec.t_in, Proofs.C10_Store.in_range; cbn; try lia.
 Qed.
